@@ -74,6 +74,15 @@ func genC06(c *Ctx) {
 		emit(true, fmt.Sprintf("cmap c=%d n=%d sync=0 mg=0 slowat=%d slowms=160 script=-", cc, 2*cc+4, cc+2))
 		emit(true, fmt.Sprintf("ccons c=%d n=%d sync=0 mg=0 slowat=0 slowms=160 script=-", cc, 3*cc+2))
 	}
+	// long streams (thousands of elements, around powers of two): every element exactly once whatever the length
+	for _, n := range []int{1023, 1024, 1025, 2500, 4097, 5000} {
+		for _, cc := range []int{1, 3, 8} {
+			emit(true, fmt.Sprintf("ccons c=%d n=%d sync=0 mg=0 script=-", cc, n))
+			emit(true, fmt.Sprintf("cmap c=%d n=%d sync=0 mg=0 script=-", cc, n))
+		}
+		emit(true, fmt.Sprintf("nest c=2 n=%d size=3 sync=0 mg=0 script=-", n))
+		emit(true, fmt.Sprintf("buf c=1 n=%d size=4 sync=0 script=-", n))
+	}
 	// seeded random: longer streams (0..4c+3), higher concurrency, back-pressure from a gated consumer, gated source
 	nr := c.Pick(250, 4000)
 	for i := 0; i < nr; i++ {
